@@ -437,8 +437,12 @@ def run(ctx):
     ctx.cov.update(traces_validated_against_impl=tv_n + hl_ok, translation_validation_failures=len(tv_fail),
                    hansenlaw_correspondence_cases=len(hl_meta), hansenlaw_correspondence_disagreements=len(hl_bad),
                    generated_definitions=0 if em is None else len(em.index))
-    ctx.cov['obligations'] = len(pr['theorems']) + tv_n + len(hl_meta)
-    ctx.cov['discharged'] = pr['discharged'] + tv_n - len(tv_fail) + hl_ok
+    # proof obligations = theorems of props/C04.v; the numeric validation of the generated terms and the
+    # vm_compute runs of the Hansen-Law model are the tie (counted separately)
+    ctx.cov['obligations'] = len(pr['theorems'])
+    ctx.cov['discharged'] = pr['discharged']
+    ctx.cov['generated_terms_validated_numerically'] = tv_n - len(tv_fail)
+    ctx.cov['hansenlaw_model_cases_vm_compute'] = hl_ok
     broken = (not pr['ok']) or bool(terr) or bool(tv_fail) or bool(hl_bad) or bool(hl_err)
     hits, n_eval, n_distinct, worst, samples = search(ctx, rng, enlarged=broken)
     ctx.cov.update(evaluations=n_eval + tv_n + len(hl_meta), distinct_nontrivial=n_distinct, exhaustive=False,
